@@ -96,3 +96,13 @@ Theorem C12_failing_function_is_retried : forall c inst u st n j b view s,
   exists t, o_trace (snd (failing_path c inst u st n j b view s)) = (t ++ o_trace s)%list /\ Forall notm t.
 Proof. exact failing_timeout_function_is_retried. Qed.
 Print Assumptions C12_failing_function_is_retried.
+
+(* EVERY TIMEOUT STATUS HAS ITS POLLER AND ITS INSERTER whenever a timeout store is configured, whatever the other build options
+   (corollary of C10_launch_exact; tie: `launch` family, and API=-1 in the engine harness, which C12's monitor reports) *)
+From WF Require Import model.Launch proofs.LaunchProofs.
+Theorem C12_every_timeout_status_has_its_processes : forall c s, cf_has_tstore c = true -> In s (cf_timeouts c) ->
+  In (UPoller s) (launch c) /\ In (UInserter s) (launch c).
+Proof.
+  intros c s Ht Hs. split; apply launch_units; do 4 right; left; (split; [exact Ht|]); exists s; (split; [exact Hs|]); [left|right]; reflexivity.
+Qed.
+Print Assumptions C12_every_timeout_status_has_its_processes.
